@@ -221,6 +221,27 @@ CHECKS = {
                          "with default factories and handlers as callback points, "
                          "non-interference checked against per-instance models",
         design="4 (C10)"),
+    "C11": dict(
+        level="exploration",
+        text=("Seeded simulated histories on a Child deferring ten attributes (DelegatesTo and "
+              "PrototypedFrom in the four prefix styles - same name, explicit name, 'prefix*', "
+              "'*' with __prefix__ - and two-level chains through an intermediate object) to "
+              "2-3 candidate delegates: valid and invalid assignments through the deferring "
+              "object, assignments on any candidate, swapping the delegate and the chain links, "
+              "deleting local values, gc, drop of former delegates, pickle restart, with "
+              "on_trait_change and observe handlers on a generated subset of the deferring "
+              "attributes. A pointer-following model is checked after every op: every deferring "
+              "attribute reads as the current target, DelegatesTo assignments land in the "
+              "delegate only, PrototypedFrom assignments create a local value that breaks the "
+              "link until deleted, invalid values are rejected by the target trait, a change of "
+              "what an attribute mirrors calls each of its handlers exactly once with the new "
+              "value, and changes on non-current candidates or after a broken link call none. "
+              "Sampling, not proof."),
+        note=("The delegate link always holds an object; swapping the delegate itself is not "
+              "required to notify."),
+        technique=TECH + "seeded two-sided assignment/swap/delete histories with gc, drop and "
+                         "restart events against a pointer-following model",
+        design="4 (C11)"),
 }
 
 NOT_APPLICABLE = {
